@@ -444,7 +444,8 @@ func runUpCloseParent(id string, parts []string) string {
 	case strings.Contains(es, "fatal error"):
 		why = "fatal-error"
 	}
-	return "CRASH " + why
+	_ = why
+	return "CRASH"
 }
 
 type fdRec struct {
